@@ -123,6 +123,16 @@ func planC08sweep(c *Ctx, run int64) *Plan {
 	if to > len(nodes) {
 		to = len(nodes)
 	}
+	if u.from == 0 {
+		// the stored digest itself: any change to it must be evident too
+		add("alter", "/head/dig/val", Op{I: int64(r.IntN(1 << 20))})
+		add("truncate", "/head/dig/val", Op{I: 1})
+		add("truncate", "/head/dig/val", Op{I: 32})
+		add("caseflip", "/head/dig/val", Op{I: int64(r.IntN(1 << 20))})
+		add("setstr", "/head/dig/alg", Op{S2: "sha512"})
+		add("setstr", "/head/dig/alg", Op{S2: "SHA256"})
+		add("setstr", "/head/dig/alg", Op{S2: "sha256 "})
+	}
 	for _, n := range nodes[u.from:to] {
 		if n.Ptr == "/doc" {
 			continue
@@ -130,6 +140,7 @@ func planC08sweep(c *Ctx, run int64) *Plan {
 		switch n.V.K {
 		case 's':
 			add("alter", n.Ptr, Op{I: int64(r.IntN(1 << 20))})
+			add("caseflip", n.Ptr, Op{I: int64(r.IntN(1 << 20))})
 			add("append", n.Ptr, Op{S2: Pick(r, []string{"T23:59:59", " ", "0", ".0", "a", "Z", "-", "%"})})
 		case 'n':
 			add("alter", n.Ptr, Op{I: 1})
@@ -217,6 +228,29 @@ func c08catalog(c *Ctx, schema string) map[string]map[string]string {
 	}
 	c08cat[schema] = m
 	return m
+}
+
+func dateTimeLike(s string) bool {
+	return len(s) >= 19 && s[4] == '-' && s[7] == '-' && (s[10] == 'T' || s[10] == 't') && s[13] == ':'
+}
+
+func uuidLike(s string) bool {
+	if len(s) != 36 {
+		return false
+	}
+	for i, c := range s {
+		switch i {
+		case 8, 13, 18, 23:
+			if c != '-' {
+				return false
+			}
+		default:
+			if !((c >= '0' && c <= '9') || (c >= 'a' && c <= 'f') || (c >= 'A' && c <= 'F')) {
+				return false
+			}
+		}
+	}
+	return true
 }
 
 // typedPtr keys a pointer by its nearest enclosing object that declares a
@@ -310,6 +344,36 @@ func applyStoreFault(root *JV, op Op) ([]byte, bool) {
 			return nil, false
 		}
 		v.S += op.S2
+	case "setstr":
+		if v.K != 's' || v.S == op.S2 {
+			return nil, false
+		}
+		v.S = op.S2
+	case "truncate":
+		if v.K != 's' || len(v.S) <= int(op.I) {
+			return nil, false
+		}
+		v.S = v.S[:len(v.S)-int(op.I)]
+	case "caseflip":
+		// flip the case of one letter of a string VALUE (member names are never touched)
+		if v.K != 's' || uuidLike(v.S) || dateTimeLike(v.S) {
+			// identifiers are case-insensitive by definition (RFC 4122), and so are the
+			// "T"/"Z" separators of a date-time (RFC 3339 §5.6): not content changes
+			return nil, false
+		}
+		var idx []int
+		for i := 0; i < len(v.S); i++ {
+			c := v.S[i]
+			if (c >= 'a' && c <= 'z') || (c >= 'A' && c <= 'Z') {
+				idx = append(idx, i)
+			}
+		}
+		if len(idx) == 0 {
+			return nil, false
+		}
+		b := []byte(v.S)
+		b[idx[int(op.I)%len(idx)]] ^= 0x20
+		v.S = string(b)
 	case "numtext":
 		if v.K != 'n' || v.S == op.S2 {
 			return nil, false
